@@ -105,6 +105,21 @@ CLAIMED = {
   note=COMMON_NOTE + "jsonpatch.make_patch (diff algorithm) is a parameter (LibCorrect is validated on every pair and is FALSE for "
        "the recorded library findings); floats and the 'test' op not modelled.",
   design="§5 C13", technique="Lean 4 proof (pointer/tree lemmas, induction over pattern lists) + differential correspondence, exhaustive small documents"),
+ "C14": dict(
+  text="Lean theorems over a line-exact model of the shipped routing-policy generators (rpl_generators/policy.py, community.py, "
+       "prefix_lists.py, aspath.py, rd.py, cumulus_frr.py, entities.py; Huawei, Arista, Cumulus back-ends) and of "
+       "_run_partial_generator (split, offside parse, apply_acl fatal): every row of every Huawei and Arista generator is covered by "
+       "that generator's own ACL (full, after repair db6d169); an action/condition either yields rows or raises before any row "
+       "(full for Huawei after repairs 0cac6f0/47fe134, for conditions on all vendors; Arista/Cumulus partial: one wrong-type "
+       "extcommunity shape excluded, kernel-checked witness); on the run(device) stream the rows below a statement header are those "
+       "of the elements that completed; every list a Huawei/Arista policy refers to is defined under the same name and kind by the "
+       "matching list generator (type-consistent, non-empty lists; false for empty lists: witness + recorded finding F14g); parse of "
+       "the rendered rows gives the yielded nesting. Tie: the real generators run through _run_partial_generator vs the model on "
+       "13.6k (quick) / 194k (thorough) random and systematic RouteMap programs and entity sets, ACL texts re-extracted from the code.",
+  note=COMMON_NOTE + "the annet.rpl builder (R.* / rule.* DSL) is executed, the model starts from the built objects; str(int) and "
+       "ipaddress formatting done by the harness; refs/defs for Cumulus decided by tie and oracle only; programs with unknown or "
+       "wrong-type list names are judged on ACL coverage, nesting and name-level refs only.",
+  design="§5 C14", technique="Lean 4 proof (stream/ACL/reference lemmas over a line-exact generator model) + differential correspondence on generated RouteMap programs"),
  "C15": dict(
   text="Lean theorems: merge laws for every merger table with Merge/DictMerge nested to any depth (unset never overrides, "
        "ForbidChange equal-or-conflict, Unite union, Concat, recursive merge, associativity, commutativity up to concat order, "
